@@ -10,7 +10,7 @@
    their 64-bit hash. The harness supplies the values as data. The integer
    key update [key*2862933555777941757 + 1] is regenerated from the source
    (Gen.C49.jump_key_step). *)
-From Coq Require Import NArith ZArith List Bool.
+From Coq Require Import NArith ZArith List Bool Floats Uint63.
 Import ListNotations.
 From Verif Require Import Lib.Corr Lib.Misc_Cmp Gen.C49.
 Open Scope Z_scope.
@@ -183,6 +183,23 @@ Fixpoint nextj_of (t : nj_tab) (b key : Z) : Z :=
   | ((b', k'), j) :: t' => if (b =? b') && (key =? k') then j else nextj_of t' b key
   end.
 
+(* the float64 expression evaluated with Coq's primitive binary64 floats
+   (execution only): float64() of the integers, `/`, `*`, truncating int64() *)
+Definition f_of_Z (n : Z) : float := PrimFloat.of_uint63 (Uint63.of_Z n).
+Definition trunc_f (f : float) : Z :=
+  match Prim2SF f with
+  | S754_finite false m e => if 0 <=? e then Z.pos m * 2 ^ e else Z.pos m / 2 ^ (- e)
+  | S754_finite true m e => if 0 <=? e then - (Z.pos m * 2 ^ e) else - (Z.pos m / 2 ^ (- e))
+  | _ => 0
+  end.
+Definition nextj_prim (b key : Z) : Z :=
+  trunc_f (PrimFloat.mul (f_of_Z (b + 1))
+             (PrimFloat.div (f_of_Z 2147483648) (f_of_Z (key / 8589934592 + 1)))).
+
+(* every oracle value is what binary64 arithmetic gives, and exceeds b *)
+Definition tab_ok (t : nj_tab) : bool :=
+  forallb (fun e => (nextj_prim (fst (fst e)) (snd (fst e)) =? snd e) && (fst (fst e) <? snd e)) t.
+
 Inductive case :=
 (* jumpHash(key, n) for n = 1, 2, ..., length outs *)
 | CJump (key : Z) (tab : nj_tab) (outs : list Z)
@@ -208,11 +225,13 @@ Definition batch_entry_ok (model : list (str * list ckey)) (e : str * list str) 
 Definition corr_ok (c : case) : bool :=
   match c with
   | CJump key tab outs =>
+      tab_ok tab &&
       list_eqb (option_eqb Z.eqb)
         (map (fun n => jump (nextj_of tab) key n) (seqZ 1 (length outs))) (map Some outs)
   | CNat a b out => Bool.eqb (nat_less a b) out
   | CPick servers servers2 keys tab sorted sorted2 single single2 batch =>
       let nj := nextj_of tab in
+      tab_ok tab &&
       (* sort.Sort is the insertion sort only up to 12 elements *)
       ((12 <? Z.of_nat (length servers)) || (list_eqb str_eqb (set_servers servers) sorted
                                              && list_eqb str_eqb (set_servers servers2) sorted2))
@@ -227,6 +246,7 @@ Definition corr_ok (c : case) : bool :=
          end
   | CAdd servers new keys tab before after =>
       let nj := nextj_of tab in
+      tab_ok tab &&
       ((12 <? Z.of_nat (length servers)) ||
        (list_eqb ostr_eqb (map (pick nj (set_servers servers)) keys) before
         && list_eqb ostr_eqb (map (pick nj (set_servers (servers ++ [new]))) keys) after))
